@@ -19,7 +19,7 @@ ASSUMPTIONS = [
     "ValueError('all capacities 0') is an allowed outcome (unreachable under capacity > 0)",
 ]
 BOUNDS = {
-    "quick": "shapes (groups x batteries x inverters): 1x1x1, 1x1x2, 1x2x1 both directions, 2x(1x1) consume; exponent 1 (exponents 0 and 2 for 1 group); manager-level accounting for 1 group; "
+    "quick": "shapes (groups x batteries x inverters): 1x1x1, 1x1x2, 1x2x1 both directions, 2x(1x1) consume; exponent 1 (exponents 0 and 2 for 1 group); manager-level accounting for 1 group; 3 groups with concrete SoC data (linear, budgeted 100 s); "
              "2 groups x 2 inverters with non-binding battery limits (budgeted 100 s, not exhaustive)",
     "thorough": "quick + 2x(1x1) supply, exponents 0 and 2, (1x1 | 1x2), (1x2 | 1x1) mixed shapes, 3x(1x1) budgeted",
 }
@@ -76,6 +76,9 @@ def instances(tier):
           "commanded power + excess = request, succeeded_power = commanded power", budget_s=120, **kw),
         I("manager-1x1x1-", "make_manager", (((1, 1),), -1, True), "same, supply", budget_s=120, **kw),
         I("manager-1x1x2-", "make_manager", (((1, 2),), -1, True), "same, battery behind 2 inverters, supply", budget_s=200, **kw),
+        I("3x(1x1)+soc", "make", (((1, 1),) * 3, 1.0, 1, False, False, (62.5, 68.75, 68.75)), "3 groups; SoC data concrete (headroom 37.5/31.25/31.25 %, capacity 1), so every "
+          "share is linear in the symbolic request and bounds (QF_LRA); all power bounds and the request symbolic (budgeted)", budget_s=100, exhaustive=False,
+          incremental=True, validate_every=200, timeout_ms=30000, decision_limit=400),
         I("(1x2|1x2)+wide", "make", (((1, 2), (1, 2)), 1.0, 1, False, True), "2 groups with 2 inverters each; batteries' own limits concrete and non-binding, "
           "SoC and all inverter bounds symbolic (budgeted)", budget_s=100, exhaustive=False, **kw),
     ]
